@@ -15,7 +15,7 @@ type gen struct {
 }
 
 func (g *gen) pick(xs ...string) string { return xs[g.r.Intn(len(xs))] }
-func (g *gen) chance(p float64) bool     { return g.r.Float64() < p }
+func (g *gen) chance(p float64) bool    { return g.r.Float64() < p }
 
 // weighted pick
 func (g *gen) wpick(ws []int) int {
